@@ -83,18 +83,20 @@ fn solve<T: Sc>(t: &mut Toks, cx: &mut Ctx) -> String {
                             // w = |L||U||x|
                             let ux: Vec<f64> = (0..n).map(|r| (r..n).map(|c| lu[(r, c)].mag64() * xa[c]).sum::<f64>()).collect();
                             let w: Vec<f64> = (0..n).map(|r| (0..r).map(|k| lu[(r, k)].mag64() * ux[k]).sum::<f64>() + ux[r]).collect();
-                            let fac = if name == "solve_lu" { 1.0 } else { 2.0 };
+                            // solve_lu: g_n + g_3n (C01F.solveLU_backward); solve_basic: g_(n-1) + g_(2n-1) (C01G.solveBasic_backward; the
+                            // elimination performs the same operations in the same order, so its multipliers and U are those of the LU)
+                            let cst = if name == "solve_lu" { g(n) + g(3 * n) } else { g(n.saturating_sub(1)) + g((2 * n).saturating_sub(1)) };
                             let mut worst = 0.0f64; let mut ok = true;
                             for i in 0..n {
                                 let row_of = (0..n).find(|r| perm[(*r, i)].mag64() == 1.0).unwrap_or(i);
                                 let mut s = T::zero(); let mut absum = b[i].mag64();
                                 for j in 0..n { s += rows[i][j] * x[j]; absum += rows[i][j].mag64() * xa[j]; }
                                 let res = (s - b[i]).mag64();
-                                let bound = fac * (g(n) + g(3 * n)) * w[row_of] + g(n + 2) * absum;
+                                let bound = cst * w[row_of] + g(n + 2) * absum;
                                 if bound.is_finite() && !(res <= bound) { ok = false; worst = worst.max(res / bound.max(1e-300)); }
                             }
                             cx.meta("lu_backward_bound_checked", 1);
-                            cx.check(ok, &format!("{}: componentwise residual exceeds the LU backward-error bound (g_n + g_3n) P^T|L||U||x| of theorem solveLU_backward by a factor {:e}", name, worst));
+                            cx.check(ok, &format!("{}: componentwise residual exceeds the LU backward-error bound (g_n + g_3n) P^T|L||U||x| of theorem solveLU_backward by a factor {:e} (solve_basic: the bound of solveBasic_backward)", name, worst));
                         }
                     }
                 }
